@@ -118,7 +118,36 @@ def suite_isim_wrappers(seed, tier):
         dens = rng.choice([0.0, 0.1, 0.5, 0.9, 1.0])
         A = np.array([[1 if rng.random() < dens else 0 for _ in range(nf)] for _ in range(nr)],
                      dtype=np.uint8)
+        if rng.random() < 0.25:
+            # empty rows: all but one, or about half of them
+            keep = {rng.randrange(nr)} if rng.random() < 0.5 else {i for i in range(nr) if rng.random() < 0.5}
+            for i in range(nr):
+                if i not in keep:
+                    A[i] = 0
+            if not A.any() and rng.random() < 0.7:
+                A[rng.randrange(nr), rng.randrange(nf)] = 1
         P = np.packbits(A, axis=1)
+        # each complementary similarity equals the iSIM of the set with that row removed (exact
+        # rational reference; 1 when the remaining rows are all empty; never NaN for >= 3 rows)
+        if nr >= 3:
+            from fractions import Fraction
+            import oracles
+            cu = S.jt_compl_isim(A, input_is_packed=False)
+            cp = S.jt_compl_isim(P, input_is_packed=True, n_features=nf)
+            ls_all = A.sum(axis=0, dtype=np.int64)
+            for k in range(nr):
+                rest = [int(v) for v in (ls_all - A[k])]
+                ex = Fraction(1) if sum(rest) == 0 else oracles.exact_isim(rest, nr - 1)
+                vu, vp = float(cu[k]), float(cp[k])
+                if not (vu == vp or (vu != vu and vp != vp)):
+                    r.bad.append({"suite": "isim-wrappers", "fn": "compl_isim", "rows": A.tolist(),
+                                  "packed": vp, "unpacked": vu})
+                    break
+                if vu != vu or ((nr - 1) * sum(rest) < 2 ** 52 and Fraction(vu) != Fraction(float(ex))):
+                    r.bad.append({"suite": "isim-wrappers", "fn": "compl_isim", "rows": A.tolist(),
+                                  "what": f"complementary similarity of row {k} is {vu!r}, the iSIM of the set "
+                                          f"without that row is {float(ex)!r}"})
+                    break
         vals = {}
         for nm, fn in [("isim", S.jt_isim), ("diam", S.jt_isim_diameter),
                        ("radius", S.jt_isim_radius), ("rcompl", S.jt_isim_radius_compl)]:
